@@ -313,7 +313,7 @@ type knownFile struct {
 	Fixed []string `json:"fixed"`
 }
 
-var shrinkPool = 900
+var shrinkPool = 400
 
 func verifDir() string { return envOr("VERIF_DIR", "/verif") }
 
@@ -577,7 +577,7 @@ func minimiseAndRecord(d *h.Driver, res *h.Result, v h.Violation, seed uint64) (
 	if !fails(spec) {
 		return "", false, "original spec does not reproduce in a fresh process"
 	}
-	budget := 150
+	budget := 120
 	if s := os.Getenv("SIM_SHRINK_BUDGET"); s != "" {
 		if n, err := strconv.Atoi(s); err == nil {
 			budget = n
